@@ -121,15 +121,15 @@ pub fn run(scn: &Obj) -> Value {
             ev.rec("addmul", || { let mut x = acc.clone(); let c = alg::addmul_nx1(&mut x, &a, b); (Sl(x), Bn(c as u128)) });
             ev.rec("submul", || { let mut x = acc.clone(); let c = alg::submul_nx1(&mut x, &a, b); (Sl(x), Bn(c as u128)) });
             ev.rec("add", || { let mut x = acc.clone(); let c = alg::add_nx1(&mut x, b); (Sl(x), Bn(c as u128)) });
-            let c01 = b & 1;
-            ev.rec("adc", || { let mut x = acc.clone(); let c = alg::adc_n(&mut x, &a, c01); (Sl(x), Bn(c as u128)) });
-            ev.rec("sbb", || { let mut x = acc.clone(); let c = alg::sbb_n(&mut x, &a, c01); (Sl(x), Bn(c as u128)) });
+            // the carry / borrow word going in is a full word (the kernels return exact words for any of them)
+            ev.rec("adc", || { let mut x = acc.clone(); let c = alg::adc_n(&mut x, &a, b); (Sl(x), Bn(c as u128)) });
+            ev.rec("sbb", || { let mut x = acc.clone(); let c = alg::sbb_n(&mut x, &a, b); (Sl(x), Bn(c as u128)) });
             ev.rec("cmp", || N((alg::cmp(&acc, &a) as i8 + 1) as usize));
         }
         "kword" => {
             let (x, y, c) = (j_to_u64(&scn["x"]), j_to_u64(&scn["y"]), j_to_u64(&scn["c"]));
             ev.rec("adc", || { let (r, c2) = alg::adc(x, y, c); (Bn(r as u128), Bn(c2 as u128)) });
-            ev.rec("sbb", || { let (r, c2) = alg::sbb(x, y, c & 1); (Bn(r as u128), Bn(c2 as u128)) });
+            ev.rec("sbb", || { let (r, c2) = alg::sbb(x, y, c); (Bn(r as u128), Bn(c2 as u128)) });
             ev.rec("cadd", || { let (r, c2) = alg::carrying_add(x, y, c & 1 == 1); (Bn(r as u128), c2) });
             ev.rec("bsub", || { let (r, c2) = alg::borrowing_sub(x, y, c & 1 == 1); (Bn(r as u128), c2) });
         }
